@@ -110,7 +110,7 @@ def senders(chk, prog, names, cell, keyv):
     short = lambda p: p.split("::")[-1]
     for field, allowed in (("keyboard", {"send_key"}), ("keyboard_sinclair", {"send_sinclair_key"}),
                            ("keyboard_extended", {"send_compound_key"}), ("caps_shift_modifier_mask", {"send_compound_key"})):
-        got = set(short(p) for p in fa.writers(names.CTL, field))
+        got = cc.effective_writers(prog, cg, fa, names, names.CTL, field, allowed)
         chk.check(got == allowed, "T-WRITERS/ZXController.%s" % field, "%s is written by %s; allowed %s" % (field, sorted(got), sorted(allowed)))
     # press / release arithmetic for one representative key per row (the cell table is decided above for all 40)
     fi = lambda n: prog.field_index(names.CTL, n)
